@@ -61,14 +61,19 @@ WithPre(ts) == [i \in 1..Len(ts) |->
 RECURSIVE HdText(_)
 HdText(hs) == IF hs = <<>> THEN "" ELSE Head(hs).body \o Head(hs).dl \o "\n" \o HdText(Tail(hs))
 
+(* Pending here-documents are kept per nesting level of $( ): a newline inside a command substitution begins the        *)
+(* here-documents announced inside it, those of the enclosing command begin after the newline that ends ITS line      *)
+(* (bash, dash and go.sh agree).  stk: the pending lists, innermost last.                                             *)
 RECURSIVE RenderFrom(_, _, _)
-RenderFrom(ts, i, pend) ==
+RenderFrom(ts, i, stk) ==
     IF i > Len(ts) THEN ""
-    ELSE LET t == ts[i] IN
-         IF IsNL(t) THEN t.pre \o "\n" \o HdText(pend) \o RenderFrom(ts, i + 1, <<>>)
-         ELSE t.pre \o t.t \o RenderFrom(ts, i + 1, pend \o t.hd)
+    ELSE LET t == ts[i] n == Len(stk) top == stk[n] IN
+         IF IsNL(t) THEN t.pre \o "\n" \o HdText(top) \o RenderFrom(ts, i + 1, [stk EXCEPT ![n] = <<>>])
+         ELSE IF t.t = "$(" THEN t.pre \o t.t \o RenderFrom(ts, i + 1, Append([stk EXCEPT ![n] = top \o t.hd], <<>>))
+         ELSE IF t.nlk = "cs" /\ n > 1 THEN t.pre \o t.t \o RenderFrom(ts, i + 1, SubSeq(stk, 1, n - 1))
+         ELSE t.pre \o t.t \o RenderFrom(ts, i + 1, [stk EXCEPT ![n] = top \o t.hd])
 
-Render(ts) == RenderFrom(ts, 1, <<>>)
+Render(ts) == RenderFrom(ts, 1, << <<>> >>)
 
 (* here-documents in source order: [body, dl] *)
 RECURSIVE HdList(_, _)
